@@ -61,6 +61,11 @@ def cases(tier, seed, args):
         out.append(dict(t='fp', kind=ml.KINDS[i % 7], K=3, D=4 if ml.KINDS[i % 7] != 'cbmm' else 3, F=1, iterations=[2, 3, 5, 20][i % 4] if ml.KINDS[i % 7] != 'cbmm' else 2,
                         blur=0.0, noise=float(10.0 ** rng.uniform(-3, -2)), seed=int(rng.integers(1 << 30)), gains=False, gainmode='mixed', E=4,
                         init_dtype=['bool', 'int64'][(i // 7) % 2]))
+    # exactly orthonormal prototypes with silent channels (canonical basis vectors / lines confined to channels 2..D), no perturbation
+    for i in range(6 if q else 36):
+        out.append(dict(t='fp', kind='cwmm', K=[2, 3, 3][i % 3], D=[4, 5, 6][i % 3], F=1 + i % 2, iterations=[1, 2, 5, 20][i % 4],
+                        blur=float([0.0, 0.2, 0.4][i % 3]), noise=0.0, seed=int(rng.integers(1 << 30)), gains=bool(i % 2), gainmode='mixed', E=4,
+                        proto_style=['canonical', 'sparse'][(i // 2) % 2]))
     # process-level state is order dependent: the cases with a small-dimension prehistory run first in the driver process
     out.sort(key=lambda c: 0 if c.get('prehistory') else 1)
     return out
@@ -92,6 +97,13 @@ def run_case(case):
         lab = np.stack([rng.permutation(base) for _ in range(F)])
     sizes_ok = all(np.bincount(lab[f], minlength=K).min() >= D + 2 for f in range(F))
     p = protos(rng, F, K, D, not real)
+    if case.get('proto_style') == 'canonical':
+        p = np.stack([np.eye(D)[rng.permutation(D)[:K]] for _ in range(F)]).astype(complex)
+    elif case.get('proto_style') == 'sparse':
+        # orthonormal lines inside the span of channels 2..D: the first channel is exactly silent
+        q_ = np.linalg.qr(rng.normal(size=(F, D - 1, D - 1)) + 1j * rng.normal(size=(F, D - 1, D - 1)))[0]
+        p = np.zeros((F, K, D), complex)
+        p[:, :, 1:] = np.swapaxes(q_, -1, -2)[:, :K, :]
     if real:
         p = p * 5.0
     noise = rng.normal(size=(F, N, D)) + (0 if real else 1j * rng.normal(size=(F, N, D)))
@@ -116,7 +128,7 @@ def run_case(case):
     if case.get('init_dtype'):
         init = onehot.astype(case['init_dtype'])
     fp = f't=fp;model={kind};it={case["iterations"]};gains={case["gains"]};gainmode={case.get("gainmode")}' + (';single' if case.get('single') else '') \
-         + (f';init={case["init_dtype"]}' if case.get('init_dtype') else '')
+         + (f';init={case["init_dtype"]}' if case.get('init_dtype') else '') + (f';protos={case["proto_style"]}' if case.get('proto_style') else '')
     key = f'fp:{case["seed"]}'
     tkw = case.get('trainer_kw') or {}
     if tkw:
